@@ -25,7 +25,7 @@ pub struct Exec {
 
 impl Exec {
     pub fn new(case_no: u64) -> Self {
-        crate::world::clear_all_rules();
+        crate::common::clear_all_rules();
         verif_clock::enable(T0_NS + case_no * 3_600_000_000_000);
         sentinel_core::system_metric::verif::set_system_load(0.0);
         sentinel_core::system_metric::verif::set_cpu_usage(0.0);
